@@ -161,3 +161,117 @@ theorem close_local (s : Sys) (t : Nat) (h : LocalHandle) (gs : List Guard) (l :
   rfl
 
 end Fastrace
+
+namespace Fastrace
+
+/-! ### adapter calls open and close guards exactly like the plain operations -/
+
+theorem closeGuard_noop (S : Sys) (t : Nat) (g : Guard)
+    (hn : g = .scope none ∨ g = .localSpan none ∨ g = .collector none) : S.closeGuard t g = S := by
+  rcases hn with rfl | rfl | rfl <;> rfl
+
+theorem closeGuard_pops (S : Sys) (t e : Nat) (g : Guard) (hgk : g = .scope (some e) ∨ g = .collector (some e))
+    (l : SpanLine) (ls : List SpanLine) (hl : (S.th t).stack.lines = l :: ls) :
+    ((S.closeGuard t g).th t).loc = ({ (S.th t).stack with lines := ls }, (S.th t).guards, (S.th t).pref) := by
+  rcases hgk with rfl | rfl
+  · simp only [Sys.closeGuard, Stack.unregisterAndCollect, hl]
+    split
+    · rw [Sys.submitSpans_loc, Sys.putCtr_loc, Sys.th_setTh_same]; rfl
+    · rw [Sys.putCtr_loc, Sys.th_setTh_same]; rfl
+  · simp only [Sys.closeGuard, Stack.unregisterAndCollect, hl, Sys.th_setTh_same]
+    rfl
+
+theorem closeGuard_local (S : Sys) (t : Nat) (h : LocalHandle) (l : SpanLine) (ls : List SpanLine)
+    (hl : (S.th t).stack.lines = l :: ls) :
+    ((S.closeGuard t (.localSpan (some h))).th t).loc
+      = ({ (S.th t).stack with lines := (l.finishSpan (S.ctr t) h).1 :: ls }, (S.th t).guards, (S.th t).pref) := by
+  simp only [Sys.closeGuard, Stack.exitSpan, hl]
+  rw [Sys.putCtr_loc, Sys.th_setTh_same]
+  rfl
+
+/-- when the adapter method returns, the thread-local state is what closing the adapter's
+    guard leaves (finishing the span afterwards does not touch it) -/
+theorem adEnd_loc (s : Sys) (t : Nat) (a result : String) (hok : (s.adEnd t a result).2.isOk = true) :
+    ∃ g gs, (s.th t).guards = g :: gs ∧
+      ((s.adEnd t a result).1.th t).loc = (((s.setTh t { s.th t with guards := gs }).closeGuard t g).th t).loc := by
+  unfold Sys.adEnd at hok ⊢
+  cases ha : assocGet s.adapters a with
+  | none => simp [ha, Obs.isOk] at hok
+  | some ad =>
+    cases hg : (s.th t).guards with
+    | nil => simp [ha, hg, Obs.isOk] at hok
+    | cons g gs =>
+      refine ⟨g, gs, rfl, ?_⟩
+      simp only [ha, hg] at hok ⊢
+      cases hc : ad.inCall with
+      | none => simp [hc, Obs.isOk] at hok
+      | some call =>
+        dsimp only
+        split
+        · cases ad.span with
+          | none => dsimp only; rw [th_withAdapters]
+          | some sv => dsimp only; rw [Sys.dropSpanVal_loc, th_withAdapters]
+        · rw [th_withAdapters]
+
+/-- entering an adapter method opens a scope on the adapter's span (or nothing, or — for
+    `enter_on_poll` — a local span), exactly as `set_local_parent` / `LocalSpan::enter…` do -/
+theorem adPoll_open (s : Sys) (t : Nat) (a call : String) (hok : (s.adPoll t a call).2.isOk = true) :
+    let th := s.th t
+    let th1 := (s.adPoll t a call).1.th t
+    (th1 = { th with guards := .scope none :: th.guards }) ∨
+    (∃ tok, th1 = { th with stack := { th.stack with lines := SpanLine.new Consts.spanQueueSize th.stack.nextEpoch (some tok) :: th.stack.lines,
+                                                     nextEpoch := th.stack.nextEpoch + 1 },
+                            guards := .scope (some th.stack.nextEpoch) :: th.guards }) ∨
+    (th1 = { th with guards := .localSpan none :: th.guards }) ∨
+    (∃ l ls l1 h c1 n, th.stack.lines = l :: ls ∧ l.startSpan (s.ctr t) n = some (l1, h, c1) ∧
+      th1.stack.lines = l1 :: ls ∧ th1.stack.cap = th.stack.cap ∧ th1.guards = .localSpan (some h) :: th.guards ∧
+      th1.pref = th.pref) := by
+  unfold Sys.adPoll at hok ⊢
+  cases ha : assocGet s.adapters a with
+  | none => simp [ha, Obs.isOk] at hok
+  | some ad =>
+    dsimp only
+    cases hk : ad.kind with
+    | enterOnPoll =>
+      dsimp only
+      cases hs : (s.th t).stack.enterSpan (s.ctr t) ad.name with
+      | none => right; right; left; dsimp only; rw [Sys.th_setTh_same]
+      | some res =>
+        obtain ⟨st1, h, c1⟩ := res
+        right; right; right
+        unfold Stack.enterSpan at hs
+        cases hl : (s.th t).stack.lines with
+        | nil => simp [hl] at hs
+        | cons l ls =>
+          simp only [hl] at hs
+          cases hst : l.startSpan (s.ctr t) ad.name with
+          | none => simp [hst] at hs
+          | some r2 =>
+            obtain ⟨l1, h', c1'⟩ := r2
+            simp only [hst, Option.some.injEq, Prod.mk.injEq] at hs
+            obtain ⟨rfl, rfl, rfl⟩ := hs
+            refine ⟨l, ls, l1, h', c1', ad.name, rfl, hst, ?_, ?_, ?_, ?_⟩ <;>
+              (dsimp only; rw [Sys.putCtr_th_same, Sys.th_setTh_same])
+    | inSpan | stream | sink =>
+      all_goals
+        dsimp only
+        cases ad.span with
+        | none => left; dsimp only; rw [Sys.th_setTh_same]
+        | some sv =>
+          cases sv with
+          | none => left; dsimp only; rw [Sys.th_setTh_same]
+          | some sp =>
+            dsimp only
+            cases hr : (s.th t).stack.registerLine (some (issueToken sp)) with
+            | none => left; dsimp only; rw [Sys.th_setTh_same]
+            | some res =>
+              obtain ⟨stack, epoch⟩ := res
+              right; left
+              unfold Stack.registerLine at hr
+              split at hr
+              · cases hr
+              · simp only [Option.some.injEq, Prod.mk.injEq] at hr
+                obtain ⟨rfl, rfl⟩ := hr
+                exact ⟨issueToken sp, by dsimp only; rw [Sys.th_setTh_same]⟩
+
+end Fastrace
